@@ -661,6 +661,10 @@ func (e *arrEnv) checkReload(when string, want []hx.TV) {
 	if err != nil {
 		e.violation("C03", "reload "+when+": iteration failed: "+err.Error())
 	}
+	// the reloaded tree must be structurally valid using nothing but the registers
+	if err := atree.VerifyArray(a, e.addr, e.committedTy, func(x, y atree.TypeInfo) bool { return x == y }, nil, true); err != nil {
+		e.violation("C03", "reload "+when+": the committed registers do not form a valid array: "+err.Error())
+	}
 	if ty, ok := a.Type().(hx.TI); !ok || ty != e.committedTy {
 		e.violation("C03", fmt.Sprintf("reload %s: type %v, committed type is %v", when, a.Type(), e.committedTy))
 	}
